@@ -20,12 +20,15 @@ def zeroShift (nearZero : K → Bool) (ks : List K) : Bool := ks.all nearZero
 def badNcomp (pyInt : Bool) (lastDim : Nat) : Bool :=
   !pyInt && !(lastDim == 1 || lastDim == 2 || lastDim == 3 || lastDim == 4)
 
-/-- float shift at application: `kgrid = sm.options.get("kgrid") or self.kgrid; if kgrid is None: raise` -/
-def noGrid (truthy : K → Bool) (smGrid opGrid : Option K) : Bool :=
+/-- float shift at application: `kgrid = sm.options.get("kgrid"); kgrid = self.kgrid if kgrid is None else kgrid;
+    if kgrid is None or not np.all(kgrid > 0): raise` (a grid of size 0 is no grid) -/
+def noGrid (positive : K → Bool) (smGrid opGrid : Option K) : Bool :=
   let chosen := match smGrid with
-    | some g => if truthy g then some g else opGrid
+    | some g => some g
     | none => opGrid
-  chosen.isNone
+  match chosen with
+  | none => true
+  | some g => !positive g
 
 /-- `_format_states` shape checks -/
 def badStatesShape (shape : List Nat) : Bool :=
